@@ -377,7 +377,11 @@ func c20Fill(dir string, leave int64) error {
 	return f.Truncate(sz)
 }
 
-// stores variants[i%nv] with generation gen0+i for i = 1, 2, ... and reports every completed store
+// store i (i = 1, 2, ...) puts variant ((i-1)/2)%nv with generation gen0+i in place: odd i through
+// SetClientConf (whole configuration), even i through SetGeneration (in-place edit of the same one);
+// every completed store is reported
+func c20LoopIdx(i, nv int) int { return ((i - 1) / 2) % nv }
+
 func c20Loop(op c20Op) {
 	vs := make([]*pb.ClientConf, len(op.Variants))
 	for i, s := range op.Variants {
@@ -385,10 +389,16 @@ func c20Loop(op c20Op) {
 	}
 	os.Stdout.Write([]byte("\nC20K ready\n"))
 	for i := 1; op.Count == 0 || i <= op.Count; i++ {
-		c := vs[i%len(vs)]
 		g := op.Gen0 + uint32(i)
-		c.Generation = &g
-		err := Assets().SetClientConf(c)
+		var err error
+		if i%2 == 1 {
+			c := vs[c20LoopIdx(i, len(vs))]
+			gg := g
+			c.Generation = &gg
+			err = Assets().SetClientConf(c)
+		} else {
+			err = Assets().SetGeneration(g)
+		}
 		os.Stdout.Write([]byte(fmt.Sprintf("\nC20K %d %s\n", i, c20ErrClass(err))))
 	}
 }
@@ -633,7 +643,7 @@ func c20RunKill(c *c20Case, out *c20Out, base string) {
 		if i <= 0 {
 			return nil
 		}
-		v := vs[i%len(vs)]
+		v := vs[c20LoopIdx(i, len(vs))]
 		g := gen0 + uint32(i)
 		v.Generation = &g
 		b, _ := proto.Marshal(v)
